@@ -107,7 +107,9 @@ func (g *sgen) join(parts ...string) string {
 }
 
 var namePool = []string{"cpu", "mem", "host", "region", "value", "usage_idle", "db0", "rp1", "m", "_x", "autogen", "mydb", "Load", "x1", "time"}
-var oddNames = []string{"a b", "select", "1x", "é", "a.b", "a\"b", "a\\b", "from", "a\nb", "日本", "x-y", "WHERE", "my db", "$x", "a'b", "tz", "fill"}
+var oddNames = []string{"a b", "select", "1x", "é", "a.b", "a\"b", "a\\b", "from", "a\nb", "日本", "x-y", "WHERE", "my db", "$x", "a'b", "tz", "fill",
+	// words the keyword table knows although they are not in the keyword token block
+	"and", "or", "true", "false", "AND", "Or", "True", "FALSE", "inf", "all", "distinct", "time", "now", "\ufffd", "it\u2019s"}
 
 func quoteName(s string) string {
 	return `"` + strings.NewReplacer("\n", `\n`, `\`, `\\`, `"`, `\"`).Replace(s) + `"`
@@ -128,8 +130,11 @@ func (g *sgen) name() string {
 			return quoteName(n)
 		}
 		return n
-	case x < 27:
+	case x < 26:
 		return quoteName(pick(g.r, namePool))
+	case x < 27:
+		// the other quote character escaped, which the scanner accepts in either kind of literal
+		return `"` + pick(g.r, []string{`it\'s`, `o\'brien`, `a\'`, `\'x\'`}) + `"`
 	case x < 35:
 		return quoteName(pick(g.r, oddNames))
 	case x < 36:
@@ -157,6 +162,9 @@ func (g *sgen) str() string {
 	if g.r.Intn(30) == 0 {
 		g.valid = false
 		return pick(g.r, []string{"'unterminated", `'bad\escape'`, `"dq"`, "x", "'a\nb'"})
+	}
+	if g.r.Intn(25) == 0 {
+		return `'` + pick(g.r, []string{`say \"hi\"`, `pa\"ss`, `\"`, `a\"b\'c`}) + `'`
 	}
 	return influxql.QuoteString(pick(g.r, []string{"x", "pw", "it's", "", "a\\b", "a\nb", "http://h:8086", "udp://h:9", "s3cr3t pass", "é", "[REDACTED]", "runtime", "2000-01-01T00:00:00Z", "select"}))
 }
@@ -216,7 +224,9 @@ func (g *sgen) count() string {
 	}
 }
 
-var regexBodies = []string{"a.*", "^cpu$", "a\\/b", "x y", "(a|b)", "^server[0-9]+", "\\d+", ".*", "a", "(?i)cpu", "[a-z]", "é+", "a\\.b", "\\/"}
+var regexBodies = []string{"a.*", "^cpu$", "a\\/b", "x y", "(a|b)", "^server[0-9]+", "\\d+", ".*", "a", "(?i)cpu", "[a-z]", "é+", "a\\.b", "\\/",
+	// a backslash in front of an (escaped) slash, and doubled backslashes
+	"C:\\\\\\/x", "usr\\\\\\/local", "a\\\\b", "\\\\\\/", "a\\/\\/b"}
 
 func (g *sgen) regex() string {
 	if g.plain {
@@ -245,7 +255,9 @@ func (g *sgen) number() string {
 		g.valid = false
 		return "$" + pick(g.r, []string{"n", "f", "b", "s", "d", "p"})
 	}
-	return pick(g.r, []string{"0", "1", "42", "9223372036854775807", "9223372036854775808", "1.5", "0.25", "100.0", "1.", ".5", "3.14159", "10s", "1h", "true", "false", "'s'", "'2000-01-01T00:00:00Z'", "-1", "-2.5", "+3", "1000000000000", "0.000001", "123456789012345"})
+	return pick(g.r, []string{"0", "1", "42", "9223372036854775807", "9223372036854775808", "1.5", "0.25", "100.0", "1.", ".5", "3.14159", "10s", "1h", "true", "false", "'s'", "'2000-01-01T00:00:00Z'", "-1", "-2.5", "+3", "1000000000000", "0.000001", "123456789012345",
+		// float boundaries around 2^53, 2^63, 2^64 (printed through FormatFloat; not compared with the model, but the round-trip oracle sees them)
+		"9007199254740992.0", "9007199254740993.0", "9223372036854775808.0", "9223372036854775807.0", "18446744073709551616.0", "-9223372036854775808.0", "1000000000000000000000.0"})
 }
 
 // ref: a field or tag reference, possibly typed or segmented.
